@@ -13,6 +13,8 @@ PROP = 'C06'
 RULE = ('stratum netlists: case = (netlist of library primitives including constants and Sequence stimulus with negative '
         'and oversized values, input vectors incl. oversized pokes); every wire reachable from the HWSystem is checked '
         'after simulator creation, after every clk, inside a simulatorUpdated listener and inside Waveform data. Stratum '
+        'leaves_with_independent_port_widths: library leaves whose constructors do not relate their port widths (3-bit carry-in, write '
+        'port wider than the read port, register narrower than its input ...), every port width drawn independently. Stratum '
         'leaf_preparing_a_wire_twice: a user-style clocked leaf that prepares its outputs twice per edge with unreduced values. Stratum '
         'blocks: case = (catalogue block, configuration, extreme operand vector). Non-trivial iff the independent '
         'reference reports at least one node whose unreduced result was out of range (negative difference, complement, '
@@ -221,7 +223,82 @@ def behav_cases():
         'kind': st.just('behav'), 'wa': st.just(wa), 'wr': st.sampled_from([1, 3, 4, 8]), 'mode': st.sampled_from(['diff', 'neg', 'wide']), 'steps': steps(wa)}))
 
 
+# ---- library leaves with every port width chosen independently ------------------------------------------------------------
+# (name -> (number of inputs, number of outputs, constructor, clocked)); nothing constrains the widths of these ports in the
+# constructors, so e.g. a 3-bit carry-in, a write port wider than the read port or a register narrower than its input are
+# legal instances; only the range invariant is judged here
+FREE = {
+    'AddCarryIn': (3, 1, lambda s, i, o: py4hw.AddCarryIn(s, 'dut', i[0], i[1], o[0], i[2]), False),
+    'Add': (2, 1, lambda s, i, o: py4hw.Add(s, 'dut', i[0], i[1], o[0]), False),
+    'Sub': (2, 1, lambda s, i, o: py4hw.Sub(s, 'dut', i[0], i[1], o[0]), False),
+    'Mul': (2, 1, lambda s, i, o: py4hw.Mul(s, 'dut', i[0], i[1], o[0]), False),
+    'And2': (2, 1, lambda s, i, o: py4hw.And2(s, 'dut', i[0], i[1], o[0]), False),
+    'Or2': (2, 1, lambda s, i, o: py4hw.Or2(s, 'dut', i[0], i[1], o[0]), False),
+    'Xor2': (2, 1, lambda s, i, o: py4hw.Xor2(s, 'dut', i[0], i[1], o[0]), False),
+    'Not': (1, 1, lambda s, i, o: py4hw.Not(s, 'dut', i[0], o[0]), False),
+    'Buf': (1, 1, lambda s, i, o: py4hw.Buf(s, 'dut', i[0], o[0]), False),
+    'Neg': (1, 1, lambda s, i, o: py4hw.Neg(s, 'dut', i[0], o[0]), False),
+    'Mux2': (3, 1, lambda s, i, o: py4hw.Mux2(s, 'dut', i[0], i[1], i[2], o[0]), False),
+    'Equal': (2, 1, lambda s, i, o: py4hw.Equal(s, 'dut', i[0], i[1], o[0]), False),
+    'ShiftLeft': (2, 1, lambda s, i, o: py4hw.ShiftLeft(s, 'dut', i[0], i[1], o[0]), False),
+    'SignExtend': (1, 1, lambda s, i, o: py4hw.SignExtend(s, 'dut', i[0], o[0]), False),
+    'ZeroExtend': (1, 1, lambda s, i, o: py4hw.ZeroExtend(s, 'dut', i[0], o[0]), False),
+    'ConcatenateLSBF': (3, 1, lambda s, i, o: py4hw.ConcatenateLSBF(s, 'dut', list(i), o[0]), False),
+    'ConcatenateMSBF': (3, 1, lambda s, i, o: py4hw.ConcatenateMSBF(s, 'dut', list(i), o[0]), False),
+    'AsynchronousMemory': (4, 1, lambda s, i, o: py4hw.AsynchronousMemory(s, 'dut', i[0], i[1], i[2], o[0], i[3]), False),
+    'SynchronousMemory': (4, 1, lambda s, i, o: py4hw.SynchronousMemory(s, 'dut', i[0], i[1], i[2], o[0], i[3]), True),
+    'Reg': (1, 1, lambda s, i, o: py4hw.Reg(s, 'dut', i[0], o[0]), True),
+    'RegER': (3, 1, lambda s, i, o: py4hw.Reg(s, 'dut', i[0], o[0], enable=i[1], reset=i[2]), True),
+    'Counter': (2, 1, lambda s, i, o: py4hw.Counter(s, 'dut', i[0], i[1], o[0]), True),
+    'DelayLine': (3, 1, lambda s, i, o: py4hw.DelayLine(s, 'dut', i[0], i[1], i[2], o[0], 2), True),
+}
+
+
+def run_free(case):
+    name = case['block']
+    nin, nout, ctor, clocked = FREE[name]
+    tags = ['free_widths:' + name]
+    try:
+        b = Bench(case['inw'], case['outw'], ctor)
+        b.simulator()
+    except HarnessError:
+        raise
+    except Exception:
+        return discard('rejected_by_constructor', tags)
+    nt = False
+    for t, vec in enumerate(case['steps']):
+        ins = [v & mask(w) for v, w in zip(vec, case['inw'])]
+        try:
+            b.poke(ins)
+            if clocked:
+                b.clk(1)
+            else:
+                b.settle()
+        except Exception:
+            return discard('block_raises', tags)          # e.g. an address beyond a memory built from another port's width
+        bad = bad_wires(b.sys)
+        if bad:
+            return fail('out_of_range|free_widths|' + name, '{} port widths in {} out {} step {} inputs {}: '.format(
+                name, case['inw'], case['outw'], t, ins) + '; '.join(bad[:3]), cls=tags)
+        if any(wi > wo for wi in case['inw'] for wo in case['outw']):
+            nt = True
+    return ok(nt, tags)
+
+
+def free_cases():
+    def for_block(n):
+        nin, nout, ctor, clocked = FREE[n]
+        wst = st.sampled_from([1, 1, 2, 3, 4, 5, 8, 12])
+        return st.tuples(st.lists(wst, min_size=nin, max_size=nin), st.lists(wst, min_size=nout, max_size=nout)).flatmap(
+            lambda t: st.lists(st.tuples(*[st.one_of(st.just(mask(w)), st.sampled_from([0, 1, mask(w), mask(w) - 1 if w > 1 else 0]), st.integers(0, mask(w))) for w in t[0]]).map(list),
+                               min_size=1, max_size=6).map(
+                lambda steps: {'kind': 'free', 'block': n, 'inw': t[0], 'outw': t[1], 'steps': steps}))
+    return st.sampled_from(sorted(FREE)).flatmap(for_block)
+
+
 def run_case(case):
+    if case.get('kind') == 'free':
+        return run_free(case)
     if case.get('kind') == 'behav':
         return run_behav(case)
     if 'desc' in case:
@@ -284,5 +361,6 @@ def strata(tier):
         {'name': 'netlists', 'kind': 'hyp', 'examples': a, 'strategy': lambda: netlist_cases(mx, cyc), 'run_case': run_case},
         {'name': 'bidirectional_wires', 'kind': 'hyp', 'examples': 200 if tier == 'quick' else 5000, 'strategy': bidir_cases, 'run_case': run_case},
         {'name': 'leaf_preparing_a_wire_twice', 'kind': 'hyp', 'examples': 150 if tier == 'quick' else 4000, 'strategy': behav_cases, 'run_case': run_case},
+        {'name': 'leaves_with_independent_port_widths', 'kind': 'hyp', 'examples': 4000 if tier == 'quick' else 60000, 'strategy': free_cases, 'run_case': run_case},
         {'name': 'catalogue_blocks_at_extremes', 'kind': 'hyp', 'examples': b, 'strategy': block_cases, 'run_case': run_case},
     ]
